@@ -286,11 +286,12 @@ def _mass_container(mass, mcont):
 
 def _case_disp(case):
     natoms, base, mkind, skind, shape, mcont = (case[k] for k in ("N", "base", "mass", "scal", "shape", "mcont"))
+    mode = case.get("mode", "mw")
     n = 3 * natoms
     e = R.basis(n, base)
     mass = R.masses(natoms, mkind)
     s = R.row_scaling(n, skind)
-    u = R.displacements(e, mass, s)
+    u = R.displacements(e, mass, s, mode)
     want = (s / np.abs(s))[:, None] * e
     if shape == "full":
         subsets = [list(range(n))]
@@ -308,7 +309,7 @@ def _case_disp(case):
             variants.append(("float", a_c.real.copy()))
         for dt, a in variants:
             tally.calls += 1
-            what = f"N={natoms} base={base} mass={mkind} scal={skind} rows={rows if len(rows) < 7 else len(rows)} dtype={dt} mcont={mcont}"
+            what = f"N={natoms} base={base} mass={mkind} scal={skind} norm={mode} rows={rows if len(rows) < 7 else len(rows)} dtype={dt} mcont={mcont}"
             try:
                 out = np.asarray(_d2e(a.copy(), _mass_container(mass, mcont)))
             except Exception as ex:
@@ -319,7 +320,10 @@ def _case_disp(case):
                 continue
             norms = np.sqrt(np.sum(np.abs(out) ** 2, axis=1))
             if np.max(np.abs(norms - 1)) > TOL:
-                tally.add("c20:disp:norm", f"{what}: row norms deviate from 1 by {np.max(np.abs(norms - 1)):.3g}")
+                kbad = int(np.argmax(np.abs(norms - 1)))
+                mw = np.linalg.norm(a[kbad] * np.sqrt(np.repeat(np.asarray(mass, dtype=float), 3)))
+                tally.add("c20:disp:norm", f"{what}: row norms deviate from 1 by {np.max(np.abs(norms - 1)):.3g} "
+                          f"(row {rows[kbad]}: displacement norm {np.linalg.norm(a[kbad]):.3g}, mass-weighted norm {mw:.3g}, returned norm {norms[kbad]:.3g})")
             g = out @ np.conj(out).T
             if np.max(np.abs(g - np.eye(len(rows)))) > TOL:
                 tally.add("c20:disp:orthonormal", f"{what}: |G - I| max {np.max(np.abs(g - np.eye(len(rows)))):.3g}")
